@@ -2,7 +2,7 @@ package endorse
 
 import (
 	"context"
-	"crypto"
+
 	"encoding/hex"
 	"time"
 
@@ -10,7 +10,7 @@ import (
 	"github.com/google/gce-tcb-verifier/keys"
 	epb "github.com/google/gce-tcb-verifier/proto/endorsement"
 	"github.com/google/gce-tcb-verifier/sev"
-	styp "github.com/google/gce-tcb-verifier/sign/types"
+
 	"github.com/google/gce-tcb-verifier/tdx"
 )
 
@@ -61,46 +61,6 @@ func verifUnsignedTDX(uefi []byte, req *tdx.EndorsementRequest) (*epb.VMTdx, err
 
 func verifMakeEvents(random any, endorsement *epb.VMLaunchEndorsement) ([]byte, error) {
 	return []byte{0xE5}, nil
-}
-
-type verifCA struct{ calls int }
-
-func (c *verifCA) Certificate(ctx context.Context, k string) ([]byte, error) {
-	c.calls++
-	return []byte{0xC1}, nil
-}
-func (c *verifCA) CABundle(ctx context.Context, k string) ([]byte, error) {
-	c.calls++
-	return []byte{0xCB}, nil
-}
-func (c *verifCA) PrimaryRootKeyVersion(ctx context.Context) (string, error) {
-	c.calls++
-	return "root", nil
-}
-func (c *verifCA) PrimarySigningKeyVersion(ctx context.Context) (string, error) {
-	c.calls++
-	return "psk", nil
-}
-func (c *verifCA) NewMutation() styp.CertificateAuthorityMutation {
-	c.calls++
-	return nil
-}
-func (c *verifCA) Finalize(ctx context.Context, m styp.CertificateAuthorityMutation) error {
-	c.calls++
-	return nil
-}
-func (c *verifCA) PrepareResources(ctx context.Context) error { c.calls++; return nil }
-func (c *verifCA) Wipeout(ctx context.Context) error          { c.calls++; return nil }
-
-type verifSigner struct{ calls int }
-
-func (s *verifSigner) PublicKey(ctx context.Context, k string) ([]byte, error) {
-	s.calls++
-	return []byte{1}, nil
-}
-func (s *verifSigner) Sign(ctx context.Context, k string, d styp.Digest, o crypto.SignerOpts) ([]byte, error) {
-	s.calls++
-	return []byte{0x51}, nil
 }
 
 func verifHas(list []string, s string) bool {
